@@ -896,6 +896,64 @@ func main() {
 			map[string]interface{}{"op": "raw payload to a gossip handler", "kind": kind, "bytes": len(raw), "class": class, "alloc": alloc}, kind, true)
 	}
 
+	// 3a. survey requests from a peer (the payload of a "ssdstore" / "presence" request frame): well
+	// formed ones, and ones whose announced lengths are inflated
+	{
+		uv := func(x uint64) []byte {
+			var b []byte
+			for x >= 0x80 {
+				b = append(b, byte(x)|0x80)
+				x >>= 7
+			}
+			return append(b, byte(x))
+		}
+		ssd, _ := svc.VerifStorage().(survey.Surveyee)
+		pres := survey.Surveyee(svc.VerifPresence())
+		lens := []uint64{0, 1, 2, 3, 100, 1 << 16, 1 << 20, 1 << 26, 1 << 28}
+		for i := 0; i < 60*cfg.Mult; i++ {
+			which := i % 2
+			var pl []byte
+			kind := "survey/well-formed"
+			ssidLen := uint64(2 + r.Intn(3))
+			announced := ssidLen
+			if r.Intn(2) == 0 {
+				announced = lens[r.Intn(len(lens))]
+				kind = "survey/ssid-length-inflated"
+			}
+			pl = append(pl, uv(announced)...)
+			for k := uint64(0); k < ssidLen; k++ {
+				pl = append(pl, uv(uint64(r.Intn(1000)))...)
+			}
+			if which == 0 { // lookupQuery: ssid, from, until, start id, limit
+				pl = append(pl, 0, 0)
+				idLen := uint64(r.Intn(4))
+				if r.Intn(3) == 0 {
+					idLen = lens[r.Intn(len(lens))]
+					if kind == "survey/well-formed" {
+						kind = "survey/id-length-inflated"
+					}
+				}
+				pl = append(pl, uv(idLen)...)
+				pl = append(pl, vlib.RandBytes(r, r.Intn(4))...)
+				pl = append(pl, 10)
+			}
+			if r.Intn(10) == 0 {
+				pl = vlib.RandBytes(r, r.Intn(12))
+				kind = "survey/random"
+			}
+			class, alloc := guarded(func() error {
+				if which == 0 && ssd != nil {
+					ssd.OnSurvey("ssdstore", pl)
+				} else {
+					pres.OnSurvey("presence", pl)
+				}
+				return nil
+			})
+			sh.Add(vlib.App("CSurveyReq", vlib.N(uint64(which)), vlib.Bytes(pl), vlib.N(uint64(class)), vlib.N(alloc)),
+				map[string]interface{}{"op": "survey request from a peer", "handler": []string{"ssdstore", "presence"}[which], "bytes": len(pl), "class": class, "alloc": alloc}, kind, true)
+		}
+	}
+
 	// 3b. a subscriber that stops reading; late and surplus survey answers
 	for i := 0; i < 2; i++ {
 		gaveUp, served := stalled(svc, key)
@@ -915,5 +973,5 @@ func main() {
 	}
 	liveCase(cfg.Seed, nLive, sh, key)
 
-	sh.Finish("hostile MQTT streams (sessions truncated, bit-flipped, with inflated / deflated remaining lengths and string lengths, long length continuations, short bodies for every packet type, random bytes) through the DecodePacket loop with four size limits; history limits around the pre-allocation cap; snappy-wrapped hostile unicast frames and gossip states (short ids / keys / values, inflated counts and length prefixes up to 2^64-1, truncations, random) and raw payloads through the real Swarm handlers with a real Service behind OnMessage; a subscriber that never reads (write deadline, time scaled 400x) and a publisher to its channel; survey answers arriving after the survey ended; one live broker child (address-space ceiling 6 GiB) attacked over hundreds of connections incl. well-formed requests with extreme parameters, with a canary client; non-trivial: non-empty inputs")
+	sh.Finish("hostile MQTT streams (sessions truncated, bit-flipped, with inflated / deflated remaining lengths and string lengths, long length continuations, short bodies for every packet type, random bytes) through the DecodePacket loop with four size limits; history limits around the pre-allocation cap; snappy-wrapped hostile unicast frames and gossip states (short ids / keys / values, inflated counts and length prefixes up to 2^64-1, truncations, random) and raw payloads through the real Swarm handlers with a real Service behind OnMessage; a subscriber that never reads (write deadline, time scaled 400x) and a publisher to its channel; survey requests (ssdstore / presence) with inflated ssid and id lengths; survey answers arriving after the survey ended; one live broker child (address-space ceiling 6 GiB) attacked over hundreds of connections incl. well-formed requests with extreme parameters, with a canary client; non-trivial: non-empty inputs")
 }
